@@ -148,6 +148,21 @@ def gen_cases(rng, tier):
     for call in LIBCALLS:
         for sarg in (NONASCII if tier != "quick" else rng.sample(NONASCII, 3)):
             add("libcall", call.replace("%s", sarg))
+    # stream 1e (enumerated): every //seq function that takes a collection of sequences, on SPARSE arrays whose items before / after
+    # the hole are falsy or truthy of every sequence kind (a hole is a nil slot of the Go slice: anything that touches every slot
+    # must expect it), plus offset arrays
+    FALSY_TRUTHY = ['""', '"a"', "[]", "[1]", "<<>>", "<<2>>", "{}", "0", "1", "false", "true", "(a: 1)"]
+    SPARSE_SHAPES = ["[%s, , %s]", "[%s, , , %s]", "[%s, %s, , %s]", "(1\\[%s, , %s])", "([%s, %s, %s] without (@: 1, @item: %s))"]
+    SEQ_USES = ['//seq.join(",", %s)', "//seq.join([0], %s)", "//seq.join(<<0>>, %s)", "//seq.concat(%s)", '//seq.join("", %s)', "//seq.concat([%s, %s])",
+                '//seq.contains("a", %s)', "//seq.repeat(2, %s)", '//seq.split(",", %s)', "//str.join(%s, ',')" if False else '//seq.has_prefix("a", %s)',
+                "%s >> . ++ .", "//rel.union(%s)", "%s orderby .", "//fmt.pretty(%s)", "//encoding.json.encode(%s)", "$`${%s::,}`"]
+    import itertools as _it
+    for shape in SPARSE_SHAPES:
+        n = shape.count("%s")
+        for combo in ([(a,) * n for a in FALSY_TRUTHY] + [tuple(FALSY_TRUTHY[(i + 3 * j) % len(FALSY_TRUTHY)] for j in range(n)) for i in range(len(FALSY_TRUTHY))]):
+            val = shape % combo
+            for use in (SEQ_USES if tier != "quick" else SEQ_USES[:6] + rng.sample(SEQ_USES[6:], 2)):
+                add("sparse-seq", use.replace("%s", val))
     # stream 2: malformed source text
     n2 = 100 if tier == "quick" else 700
     for _ in range(n2):
